@@ -33,6 +33,17 @@ def is_trivial(v):
     return v in ('()', '[]', '{}', '#0()', 's""', '0')
 
 
+def max_unit(t):
+    """largest alignment unit of a zero-copy block anywhere in the type"""
+    m = 1
+    for x in t.walk():
+        try:
+            if x.is_zc(): m = max(m, x.unit())
+        except NotImplementedError:
+            pass
+    return m
+
+
 def is_fragile(t):
     return any(x.fragile for x in t.walk())
 
@@ -113,7 +124,7 @@ def gen_cases(prop, u, seed, tier, probe=None):
                 case(i, 0, '-', v, 'roundtrip')
             if prop == 'C02':
                 # other placements that are still multiples of every unit (units are at most 64)
-                for v in values_for(t, rng, 2):
+                for v in (values_for(t, rng, 2) if max_unit(t) <= 64 else []):
                     case(i, 64, '-', v, 'roundtrip-64')
     elif prop == 'C06':
         import json, os
@@ -285,6 +296,45 @@ def gen_cases(prop, u, seed, tier, probe=None):
         for (a, b) in pairs:
             if vals.get(a) is None: continue
             cs.add('xdeser %d %d %s' % (a, b, vals[a]), kind='xdeser', ti=a, tj=b, val=vals[a], family='pair')
+    elif prop == 'C05':
+        from universe import Adt
+        seen_defs = set()
+        for i, t in enumerate(u.types):
+            cs.add('dtype %d' % i, kind='dtype', ti=i, family='dtype')
+            if not isinstance(t, Adt):
+                continue
+            d = t.d
+            targs = '|'.join(x.term() for x in t.targs) or '-'
+            cargs = '|'.join(str(int(c)) for c in t.cargs) or '-'
+            cs.add('derive %d %s %s %s' % (i, d.defterm(), targs, cargs), kind='derive', ti=i, family='derive',
+                   literal=d.literal_params(), ntp=len(d.tparams), zero=d.copy == 'zero',
+                   self_eps=[x.deser_rust() == x.rust() for x in t.targs])
+            if d.path() not in seen_defs:
+                seen_defs.add(d.path())
+                feats = ['enum' if d.is_enum else 'struct', 'copy-' + d.copy]
+                feats += ['variant-' + st for _, st, _ in d.variants] if d.is_enum else ['struct-' + d.variants[0][1]]
+                if d.tparams: feats.append('type-params')
+                if d.cparams: feats.append('const-params')
+                if any(p.get('default') is not None for p in d.tparams + d.cparams): feats.append('defaulted-params')
+                if any(p['bounds'] for p in d.tparams): feats.append('bounds')
+                if d.where: feats.append('where-clause')
+                if d.reprs: feats.append('repr')
+                kinds = set()
+                def scan(te, top=True):
+                    if te[0] == 'param': kinds.add('field-literal-param' if top else 'field-mentions-param')
+                    elif te[0] == 'ph':
+                        if te[1][0] == 'param': kinds.add('phantom-param')
+                    elif te[0] in ('vec', 'bs', 'opt', 'bnd', 'arr', 'const_arr'): scan(te[1], False)
+                    if te[0] == 'const_arr': kinds.add('array-of-const-length')
+                    if te[0] == 'ty' and isinstance(te[1], Adt): kinds.add('nests-derived-type')
+                for _, _, fs in d.variants:
+                    for _, te in fs: scan(te)
+                for f in feats + sorted(kinds):
+                    cs.dist['grammar:' + f] = cs.dist.get('grammar:' + f, 0) + 1
+            for v in values_for(t, rng, nvals):
+                case(i, 0, '-', v, 'roundtrip-derived')
+            for v in (values_for(t, rng, 2) if max_unit(t) <= 64 else []):
+                case(i, 64, '-', v, 'roundtrip-derived-64')
     elif prop == 'C08':
         loaders = ['full', 'mem', 'mmap', 'map']
         for i, t in enumerate(u.types):
